@@ -151,7 +151,7 @@ func chainMutations(purpose string) []chainMut {
 	for _, k := range []struct {
 		id string
 		ok bool
-	}{{"rsa1024-0", false}, {"rsa2048-0", true}, {"rsa3072-0", true}, {"rsa4096-0", true}, {"ec224-0", false}, {"ec256-1", true}, {"ec384-0", true}, {"ec521-0", true}, {"ed-0", false}} {
+	}{{"rsa1024-0", false}, {"rsa2056-0", false}, {"rsa2560-0", false}, {"rsa3200-0", false}, {"rsa5120-0", false}, {"rsa2048-0", true}, {"rsa3072-0", true}, {"rsa4096-0", true}, {"ec224-0", false}, {"ec256-1", true}, {"ec384-0", true}, {"ec521-0", true}, {"ed-0", false}} {
 		k := k
 		add("leaf-key-"+k.id, k.ok, "leaf", func(s []*CertSpec, p int) { s[p].KeyID = k.id })
 	}
@@ -181,6 +181,9 @@ func chainMutations(purpose string) []chainMut {
 	add("ca-eku-serverauth", true, "ca", func(s []*CertSpec, p int) { s[p].EKU = []x509.ExtKeyUsage{x509.ExtKeyUsageServerAuth} })
 	// ---- links
 	add("name-mismatch", false, "mid", func(s []*CertSpec, p int) { s[p].IssuerCN = "somebody-else" })
+	// the issuer names the parent in another DER encoding of the same attributes: not the parent's subject, byte for byte
+	add("issuer-name-reencoded", false, "mid", func(s []*CertSpec, p int) { s[p].IssuerReencoded = true })
+	add("root-issuer-name-reencoded", false, "root", func(s []*CertSpec, p int) { s[p].IssuerReencoded = true })
 	add("foreign-signature", false, "mid", func(s []*CertSpec, p int) { s[p].ForeignSig = true })
 	add("corrupt-signature", false, "any", func(s []*CertSpec, p int) { s[p].CorruptSig = true })
 	add("self-signed-nonroot", false, "mid", func(s []*CertSpec, p int) { s[p].SelfSign = true })
